@@ -7,6 +7,9 @@ CONSTANTS
   Lazy = FALSE
   MaxOps = 3
   MaxHeld = 1
+  OpSet = {"debit", "local", "retain", "finish"}
+  Atomic = FALSE
+  GtBug = FALSE
 SPECIFICATION Spec
 INVARIANTS TypeOK AcceptedNeverExceedsCap ShadowNeverRejects ShadowRecordsCrossing OffCountsNothing RequiredRejectionLatches
   BestEffortDoesNotLatch LatchedIsExhausted RefsOK PublishOnce PublishedWhenQuiescent
